@@ -632,6 +632,43 @@ def query_twin(ctx):
     return obs
 
 
+def _renumber(txt):
+    import re
+    m = {}
+
+    def rep(mo):
+        return m.setdefault(mo.group(0), 'v%d' % len(m))
+    return re.sub(r'\bv\d+\b', rep, txt)
+
+
+def _calls_of(stmt_text):
+    body = stmt_text
+    for pre in ('if ', 'while ', 'with ', 'for '):
+        if body.startswith(pre):
+            body = body[len(pre):]
+    body = body.split('#')[0] if '#' in body and body.rsplit('#', 1)[1].isdigit() else body
+    try:
+        tree = ast.parse(body)
+    except SyntaxError:
+        return []
+    return [_renumber(ast.unparse(c)) for c in ast.walk(tree) if isinstance(c, ast.Call) and isinstance(c.func, ast.Attribute)]
+
+
+def _preval_by_call(preval, findings, k):
+    live = set('%s|%s' % kk for kk in findings)
+    mine = _calls_of(k[1])
+    if not mine:
+        return None
+    hits = []
+    for ekey, ent in preval.items():
+        if ent['function'] != k[0] or ekey in live:
+            continue
+        theirs = _calls_of(ent['statement'])
+        if theirs and theirs[0] in mine:
+            hits.append(ent)
+    return hits[0] if len(hits) == 1 else None
+
+
 @rule('SA-VBM')
 @props('C14')
 def vbmrule(ctx):
@@ -663,6 +700,13 @@ def vbmrule(ctx):
         f = ctx.m.functions.get(k[0])
         ent = preval.get(key)
         if ent is None and f is not None:
+            # the same call inside another statement shape (a single-use temporary removed or introduced around it:
+            # `n = p.remove(x); total += n * bs`  vs  `total += p.remove(x) * bs`): an entry of this function whose own
+            # statement is gone and whose refusing call, placeholders renumbered, occurs in this statement
+            ent = _preval_by_call(preval, findings, k)
+            if ent is not None:
+                key = '%s|%s' % (k[0], k[1])
+        if ent is None and f is not None:
             auto = _covered_by_earlier_refusals(ctx, e, f, k[1], d['sites'])
             if auto:
                 obs.append(Ob('SA-VBM', key, True, ctx.loc(f, f.node), 'pre-validated: every refusal this statement can raise (%d raise sites) is raised first, on the same '
@@ -670,7 +714,7 @@ def vbmrule(ctx):
                 auto_ok.add(k)
                 continue
         if ent is not None and f is not None:
-            used_preval.add(key)
+            used_preval.add('%s|%s' % (ent['function'], ent['statement']))
             if ent.get('validated_in_callers'):
                 missing = _prevalidation_in_callers_missing(ctx, e, f, ent['validated_by'])
             else:
